@@ -646,7 +646,7 @@ def eval_doc(plan):
             try:
                 t.write(r, c, v)
             except Exception as e:  # noqa: BLE001
-                out.append((ident("exception-write", type(e).__name__, type(v).__name__, where, _zone(r, c)),
+                out.append((ident("exception-write", type(e).__name__, type(v).__name__ if eval_record(v) else "any", where, _zone(r, c)),
                             f"{tag}: write({r}, {c}, {short(v)}) on a {old[0]}x{old[1]} table raised {type(e).__name__}: {e}"))
                 continue
             want = (max(old[0], r + 1), max(old[1], c + 1))
@@ -682,23 +682,31 @@ def eval_doc(plan):
                 cell = t.cell(r, c)
                 got = cell.value
             except Exception as e:  # noqa: BLE001
-                out.append((ident("exception-read", type(e).__name__, tn, where, _zone(r, c)), f"{tag}: cell({r}, {c}) of the reopened table raised {type(e).__name__}: {e}"))
+                out.append((ident("exception-read", type(e).__name__, "any", where, _zone(r, c)), f"{tag}: cell({r}, {c}) of the reopened table raised {type(e).__name__}: {e}"))
                 continue
             if type(cell) is EXPECT[type(v)] and same(v, got):
                 continue
-            # A value that does not survive the record layer either fails because of its encoding, wherever
-            # it is written: position, growth and family are then left out of the identity.
+            # A value that does not survive the record layer either fails because of its encoding, wherever it is
+            # written: position, growth and family are then left out of the identity. Otherwise the position is
+            # what matters and the value type is left out.
             codec = bool(eval_record(v))
-            wz = ("any", "any") if codec else (where, _zone(r, c))
             if type(cell) is not EXPECT[type(v)]:
-                idn = ident("class", type(cell).__name__, tn, *wz)
+                kind = "class"
+                pat = type(cell).__name__ if codec or type(cell) is EmptyCell else "cell-of-another-type"
                 detail = f"{tag}: wrote {short(v)} at ({r}, {c}); reopened cell is a {type(cell).__name__} with value {short(got)}, expected {EXPECT[type(v)].__name__}"
             else:
-                idn = ident("value", pattern(v, got, others), tn, *wz)
+                kind = "value"
+                if codec:
+                    pat = pattern(v, got, others)
+                else:
+                    pat = "another-value-of-the-document" if any(type(o) is type(got) and same(o, got) for o in others) else "foreign-value"
                 detail = f"{tag}: wrote {short(v)} at ({r}, {c}); after save and reopen (cycle {ci}) the cell reads {short(got)}"
             if codec:
+                idn = ident(kind, pat, tn, "any", "any")
                 idn["family"] = "any"
                 idn["cause"] = "record-codec"
+            else:
+                idn = ident(kind, pat, tn if kind == "value" else "any", where, _zone(r, c))
             out.append((idn, detail))
         bad = []
         try:
@@ -711,7 +719,7 @@ def eval_doc(plan):
         except Exception as e:  # noqa: BLE001
             out.append((ident("exception-scan", type(e).__name__), f"{tag}: reading the unwritten cells raised {type(e).__name__}: {e}"))
         if bad:
-            out.append((ident("untouched-not-empty", bad[0][2]), f"{tag}: {len(bad)} cells never written are not empty after reopen (cycle {ci}), first {bad[0]}"))
+            out.append((ident("untouched-not-empty", "-"), f"{tag}: {len(bad)} cells never written are not empty after reopen (cycle {ci}), first {bad[0]}"))
     return out
 
 
